@@ -2,11 +2,16 @@
 (* Trace validation for C05 (and C02 at shell level) on ShellSim runs: after every arm call each link's
    in-flight count must equal |out[l]|, and around every NAK datagram the per-link loss count, window and
    in-flight deltas must be exactly the charges NakAttr assigns.                                          *)
-EXTENDS NakAttr, Json, IOUtils, TLC
+EXTENDS NakAttr, Json, IOUtils, TLC, SequencesExt
 
 Rec == ndJsonDeserialize(IOEnv.TRACE)
 
-VARIABLES i, pl     \* position; [win, naks] per link after the previous line
+CONSTANT CheckClassic   \* TRUE: additionally (C10) while the run is in classic mode with the stall guard off, every
+                        \* routed packet must go to the reference argmax and every window must evolve by the
+                        \* reference rules exactly
+
+VARIABLES i, pl,    \* position; [win, naks, infl, queued] per link after the previous line
+          ref       \* the run is currently in classic mode with the guard off
 
 N(r) == Len(r.links)
 
@@ -15,18 +20,71 @@ SeqsOn(w, l) == IF w = <<>> THEN {}
                 ELSE (IF Head(w).l = l /\ Head(w).cls = "data" /\ Head(w).seq >= 0 THEN {Head(w).seq} ELSE {})
                      \cup SeqsOn(Tail(w), l)
 
+(* some stream datagram (anything but the sender's own keepalives / handshake) left on l during the step *)
+RECURSIVE FlushedOn(_, _)
+FlushedOn(w, l) == IF w = <<>> THEN FALSE
+                   ELSE (Head(w).l = l /\ Head(w).cls \notin {"ka", "reg1", "reg2"}) \/ FlushedOn(Tail(w), l)
+
 SentSets(r) == [l \in Links |-> IF l <= N(r) THEN SeqsOn(r.wire, l) ELSE {}]
-PlOf(r) == [l \in Links |-> IF l <= N(r) THEN [win |-> r.links[l].win, naks |-> r.links[l].naks] ELSE [win |-> 0, naks |-> 0]]
+PlOf(r) == [l \in Links |-> IF l <= N(r)
+              THEN [win |-> r.links[l].win, naks |-> r.links[l].naks, infl |-> r.links[l].infl,
+                    queued |-> r.links[l].queued]
+              ELSE [win |-> 0, naks |-> 0, infl |-> 0, queued |-> 0]]
+
 Counts(r) == \A l \in 1..N(r) : r.links[l].infl = Cardinality(out'[l])
 Marked(r) == {l \in 1..N(r) : r.marked[l]}
 
-TraceInit == Init /\ i = 1 /\ pl = [l \in Links |-> [win |-> 20000, naks |-> 0]]
+TraceInit == Init /\ i = 1 /\ pl = [l \in Links |-> [win |-> 20000, naks |-> 0, infl |-> 0, queued |-> 0]]
+             /\ ref = FALSE
 
 (* the link that received the unique copy: the one recorded as last selected, if its queue (or its wire) grew *)
 Unique(r) == IF r.lastsel # 0 /\ r.lastsel <= N(r)
-                /\ (r.links[r.lastsel].queued > r.q0[r.lastsel] \/ SeqsOn(r.wire, r.lastsel) # {}
+                /\ (r.links[r.lastsel].queued > r.q0[r.lastsel] \/ FlushedOn(r.wire, r.lastsel)
                     \/ r.marked[r.lastsel])
              THEN r.lastsel ELSE 0
+
+(* ---- C10: the reference srtla_send algorithm ---- *)
+WMax == 60000
+(* usable when the choice was made: the flags after the call, except that a link this very call reset
+   (its flush failed) was usable when it was chosen *)
+UsableL(r, l) == r.marked[l] \/ (r.links[l].conn /\ r.links[l].phase # "Reg" /\ ~r.links[l].to)
+RefScore(l) == pl[l].win \div (pl[l].infl + pl[l].queued + 1)
+RefChoice(r) ==
+    LET U == {l \in 1..N(r) : UsableL(r, l)} IN
+    IF U = {} THEN 0
+    ELSE CHOOSE l \in U : /\ \A m \in U : RefScore(m) <= RefScore(l)
+                          /\ \A m \in U : m < l => RefScore(m) < RefScore(l)
+
+(* windows after an SRTLA ACK list: +29 on the link that earned it iff in-flight x 1000 exceeds its window,
+   +1 on every connected link that has heard anything, per listed number *)
+Heard(r, l) == r.links[l].conn /\ r.links[l].recv # -1
+(* one listed number: acc = <<outstanding sets, windows>> *)
+AckWin1(acc, s, arr, r) ==
+    LET f == acc[1]  w == acc[2]
+        h == IF s \in f[arr] THEN arr ELSE FirstHolder(f, s, arr)
+        f1 == IF h = 0 THEN f ELSE [f EXCEPT ![h] = @ \ {s}]
+        w1 == IF h # 0 /\ Cardinality(f1[h]) * 1000 > w[h]
+              THEN [w EXCEPT ![h] = IF @ + 29 > WMax THEN WMax ELSE @ + 29] ELSE w
+        w2 == [l \in Links |-> IF l <= N(r) /\ Heard(r, l) THEN (IF w1[l] + 1 > WMax THEN WMax ELSE w1[l] + 1)
+                               ELSE w1[l]]
+    IN <<f1, w2>>
+(* (FoldLeft evaluates eagerly; a RECURSIVE operator over a 374-number list does not finish) *)
+AckWin(f, w, arr, lst, r) == FoldLeft(LAMBDA acc, s : AckWin1(acc, s, arr, r), <<f, w>>, lst)[2]
+
+PrevWin == [l \in Links |-> pl[l].win]
+WinsAre(r, w) == \A l \in 1..N(r) : r.links[l].win = w[l]
+WinsKept(r, Rs) == \A l \in 1..N(r) : r.links[l].win = IF l \in Rs THEN 20000 ELSE pl[l].win
+
+Classic(r) ==
+    IF r.ev = "ClientPkt" THEN
+        /\ (r.regdone => Unique(r) = RefChoice(r))
+        /\ WinsKept(r, Marked(r))
+    ELSE IF r.ev = "FlushTick" THEN WinsKept(r, Marked(r))
+    ELSE IF r.ev = "Housekeeping" THEN          \* no time-based recovery in classic mode
+        WinsKept(r, {l \in 1..N(r) : r.pre[l].to /\ r.pre[l].due})
+    ELSE IF r.ev = "UplinkPkt" /\ r.len >= 2 /\ r.cls = "srtla_ack" THEN WinsAre(r, AckWin(out, PrevWin, r.l, r.nums, r))
+    ELSE IF r.ev = "UplinkPkt" /\ r.len >= 2 /\ r.cls = "srt_nak" THEN TRUE     \* checked by the NAK rule above
+    ELSE WinsKept(r, {})
 
 Step(r) ==
     IF r.ev = "Init" THEN /\ out' = [l \in Links |-> {}] /\ ring' = EmptyRing /\ act' = "Init"
@@ -63,11 +121,13 @@ TraceNext ==
     /\ i' = i + 1
     /\ LET r == Rec[i] IN
        /\ Step(r) /\ Counts(r) /\ pl' = PlOf(r)
+       /\ ref' = IF r.ev \in {"Init", "SetCfg"} THEN (r.mode = "classic" /\ ~r.guard) ELSE ref
+       /\ (CheckClassic /\ ref /\ r.ev # "Init") => Classic(r)
        \* loss counts never move outside a NAK datagram (or a reset)
        /\ (r.ev # "Init" /\ ~(r.ev = "UplinkPkt" /\ r.cls \in {"srt_nak", "reg3"}) /\ r.ev # "Housekeeping")
              => \A l \in 1..N(r) : r.links[l].naks = pl[l].naks
 
-TraceSpec == TraceInit /\ [][TraceNext]_<<vars, i, pl>>
+TraceSpec == TraceInit /\ [][TraceNext]_<<vars, i, pl, ref>>
 
 TraceAccepted ==
     LET d == TLCGet("stats").diameter IN
